@@ -1,7 +1,7 @@
 (* C18 property theorems: statements + `exact lemma` only.
    cfg = liveness configuration, h = history of Query / Adv / ClearExpired,
    trace c h = the observable (op, output) list, after c h = the tester state. *)
-From CJ Require Import Common.Base C18.Model C18.Proofs C18.Proofs2 C18.ModelAgree C18.Agree C18.ModelConc C18.Conc C18.ConcSeq.
+From CJ Require Import Common.Base C18.Model C18.Proofs C18.Proofs2 C18.ModelAgree C18.Agree C18.ModelConc C18.Conc C18.ConcSeq C18.ModelToml.
 
 (* A verdict comes from a cache only if the address was measured less than the
    configured lifetime ago, and it is the verdict of that (most recent) measurement.
@@ -139,3 +139,62 @@ Proof.
   - intros now ttl. exact (solo_clear s c now ttl HM HW).
 Qed.
 Print Assumptions C18_concurrent_model_is_sequential_when_alone.
+
+(* ---- fifth round: configuration that arrives through TOML decoding (ModelToml.v) ----
+   d = the station TOML as the map key name -> written value; decode d = liveness.Config as the
+   struct tags fill it; written_dur / written_cap d v = the value written under the DOCUMENTED key
+   of side v (cache_expiration_time, cache_capacity | cache_expiration_nonlive, cache_capacity_nonlive). *)
+Theorem C18_toml_decode_fieldwise :
+  forall d v, dur (decode d) v = written_dur d v /\ cap (decode d) v = written_cap d v.
+Proof. exact decode_fieldwise. Qed.
+Print Assumptions C18_toml_decode_fieldwise.
+
+Theorem C18_toml_tester_is_tester_of_written_values :
+  forall d, init_caches (decode d) =
+    mkSt (init_cache (written_dur d true) (written_cap d true))
+         (init_cache (written_dur d false) (written_cap d false)) 0 0.
+Proof. exact decode_tester. Qed.
+Print Assumptions C18_toml_tester_is_tester_of_written_values.
+
+(* the cache of side v never exceeds the capacity written under that side's own key *)
+Theorem C18_toml_capacity_respected :
+  forall d h v, (0 < written_cap d v)%Z -> (Z.of_N (size v (after (decode d) h)) <= written_cap d v)%Z.
+Proof. exact toml_capacity_respected. Qed.
+Print Assumptions C18_toml_capacity_respected.
+
+Theorem C18_toml_lru_bounded :
+  forall d h v, written_cap d v <> 0%Z -> size v (after (decode d) h) <= lru_size (written_cap d v).
+Proof. exact toml_lru_bounded. Qed.
+Print Assumptions C18_toml_lru_bounded.
+
+(* a verdict v is served only while younger than the lifetime written under v's own key *)
+Theorem C18_toml_served_only_fresh :
+  forall d h a pl pe v,
+    outs (decode d) (h ++ [Query a pl pe]) = outs (decode d) h ++ [Cached v] ->
+    exists g ttl, last_measured (trace (decode d) h) a = Some (v, g) /\
+                  written_dur d v = Some ttl /\ (Z.of_N g < ttl)%Z.
+Proof. exact toml_served_only_fresh. Qed.
+Print Assumptions C18_toml_served_only_fresh.
+
+(* no lifetime written for a side => that side caches nothing *)
+Theorem C18_toml_unset_duration_no_cache :
+  forall d h v, written_dur d v = None -> size v (after (decode d) h) = 0.
+Proof. exact toml_unset_duration_no_cache. Qed.
+Print Assumptions C18_toml_unset_duration_no_cache.
+
+(* refuted variants: with the tags of the two capacities (the two lifetimes) exchanged the statements fail *)
+Theorem C18_toml_swapped_caps_refuted :
+  (0 < written_cap w_caps false)%Z /\
+  (Z.of_N (size false (after (decode_swapped_caps w_caps) w_caps_h)) > written_cap w_caps false)%Z /\
+  snd (step (after (decode_swapped_caps w_caps) w_caps_h) (Query 0 false 0)) = Cached false /\
+  snd (step (after (decode w_caps) w_caps_h) (Query 0 false 0)) = Probed false 0.
+Proof. exact swapped_caps_break_bound. Qed.
+Print Assumptions C18_toml_swapped_caps_refuted.
+
+Theorem C18_toml_swapped_durs_refuted :
+  written_dur w_durs false = Some 2%Z /\
+  last_measured (trace (decode_swapped_durs w_durs) w_durs_h) 0 = Some (false, 3) /\
+  snd (step (after (decode_swapped_durs w_durs) w_durs_h) (Query 0 false 0)) = Cached false /\
+  snd (step (after (decode w_durs) w_durs_h) (Query 0 false 0)) = Probed false 0.
+Proof. exact swapped_durs_serve_stale. Qed.
+Print Assumptions C18_toml_swapped_durs_refuted.
